@@ -24,6 +24,7 @@ type Engine struct {
 	contracts       map[string]*Contract
 	specFuncs       map[string]*SpecFunc
 	axioms          []*Axiom
+	monotone map[string]bool
 	ghosts          map[string]*GhostVar
 	contractFiles   []string
 	typeCache       map[string]types.Type
@@ -46,7 +47,7 @@ type debugVal struct {
 }
 
 func newEngine(root string) *Engine {
-	return &Engine{root: root, contracts: map[string]*Contract{}, specFuncs: map[string]*SpecFunc{}, ghosts: map[string]*GhostVar{},
+	return &Engine{root: root, contracts: map[string]*Contract{}, specFuncs: map[string]*SpecFunc{}, ghosts: map[string]*GhostVar{}, monotone: map[string]bool{},
 		typeCache: map[string]types.Type{}, funcIDs: map[*ssa.Function]int64{}, funcByKey: map[string]*ssa.Function{}, ssaPkgs: map[string]*ssa.Package{},
 		mutableGlobals: map[*ssa.Global]bool{}, debugCache: map[*ssa.Function]map[string][]debugVal{}, deadCache: map[*ssa.Function]map[ssa.Instruction]bool{}, aliasCache: map[string]map[string]*types.Package{}, safety: true, maxInlineDepth: 6, maxInlineInstrs: 400}
 }
